@@ -163,11 +163,19 @@ def run(ctx: Ctx):
     def collected(pool) -> Optional[ast.For]:
         """loop that appends .result() of every future of `pool` to the chance list"""
         c, inner, it = pool
-        asg = enclosing(f.node, inner, (ast.Assign,)) if isinstance(inner, ast.ListComp) else []
-        pv = norm(asg[-1].targets[0]) if asg else None
-        if pv is None:
+        if isinstance(inner, ast.ListComp):
+            asg = enclosing(f.node, inner, (ast.Assign,))
+            pv = norm(asg[-1].targets[0]) if asg else None
+            anode = asg[-1] if asg else None
+        else:
+            # for _ in range(n): pool.append(p.submit(...))   with   pool = []  just before
+            apps_ = [x for x in enclosing(f.node, c, (ast.Call,)) if isinstance(x.func, ast.Attribute) and x.func.attr == "append" and x.args and x.args[0] is c]
+            pv = norm(apps_[-1].func.value) if apps_ else None
+            inits = [s_ for s_ in walk_no_nested(f.node) if isinstance(s_, ast.Assign) and pv and norm(s_.targets[0]) == pv and isinstance(s_.value, ast.List)
+                     and not s_.value.elts and _same_block(f, s_, inner) and _pos(f, s_) < _pos(f, inner)]
+            anode = inits[-1] if inits else None
+        if pv is None or anode is None:
             return None
-        anode = asg[-1]
         for L in walk_no_nested(f.node):
             if isinstance(L, ast.For) and norm(L.iter) in (pv, f"enumerate({pv})"):
                 # must be the binding in force: the closest preceding assignment of pv is `anode`
